@@ -16,6 +16,9 @@ package absnfs
 //   {"a":"rel","who":"S<K>"|"stop"|"resize"}  let a paused goroutine run to its next pause point
 //   {"a":"open","k":K}                        open the gate the body of task K is blocked on
 //   {"a":"stop"}  {"a":"resize","n":N}        start the goroutine calling Stop / Resize(N)
+//   {"a":"sleep"}                             let real time pass: longer than every configured
+//                                             tuning timeout (the pool hangs off a real AbsfsNFS made
+//                                             by New with all Timeouts set to $VF_WP_TMO_MS)
 // After every step the driver waits until the pool has settled (no event for a quiet period and
 // no submitter inside Submit's 50 ms send); a step that does not apply is recorded as "skip".
 // The verdict never depends on how faithfully a schedule was followed.
@@ -52,6 +55,7 @@ type vfwpSched struct {
 	Pauses bool       `json:"pauses"` // controllable goroutines stop at the pause points
 	Settle bool       `json:"settle"` // wait for quiescence after every step
 	Auto   bool       `json:"auto"`   // task bodies open their own gate after a short random delay
+	BodyUS int        `json:"bodyus"` // auto: upper bound of that delay in microseconds (default 300)
 	Steps  []vfwpStep `json:"steps"`
 }
 
@@ -264,7 +268,11 @@ func (r *vfwpRun) body(k int) func() interface{} {
 			r.add(o)
 			r.gateOpen[k] = true
 			close(gate)
-			d = time.Duration(r.next()%300) * time.Microsecond
+			span := uint64(300)
+			if r.sc.BodyUS > 0 {
+				span = uint64(r.sc.BodyUS)
+			}
+			d = time.Duration(r.next()%span) * time.Microsecond
 		}
 		r.mu.Unlock()
 		if d > 0 {
@@ -582,7 +590,7 @@ func (r *vfwpRun) cleanup() {
 	done := make(chan struct{})
 	go func() {
 		defer func() { recover(); close(done) }()
-		r.pool.Stop()
+		r.nfs.Close() // stops the pool
 		r.pool.wg.Wait()
 	}()
 	select {
@@ -591,19 +599,36 @@ func (r *vfwpRun) cleanup() {
 	}
 }
 
+// vfwpTimeouts: every configurable timeout is set to the same small value, so that anything in the
+// pool (or between ExecuteWithWorker and the pool) that consults the tuning timeouts acts within a
+// "sleep" step of a schedule.
+func vfwpTimeouts() (*TimeoutConfig, time.Duration) {
+	d := time.Duration(vfEnvInt("VF_WP_TMO_MS", 20)) * time.Millisecond
+	return &TimeoutConfig{ReadTimeout: d, WriteTimeout: d, LookupTimeout: d, ReaddirTimeout: d, CreateTimeout: d,
+		RemoveTimeout: d, RenameTimeout: d, HandleTimeout: d, DefaultTimeout: d}, d
+}
+
 func vfwpRunOne(t *testing.T, sc *vfwpSched, seed uint64) []M {
-	nfs := &AbsfsNFS{}
-	nfs.logger = log.New(io.Discard, "", 0)
-	r := &vfwpRun{sc: sc, nfs: nfs, last: time.Now(), roles: map[int64]string{}, rc2k: map[chan interface{}]int{},
+	r := &vfwpRun{sc: sc, last: time.Now(), roles: map[int64]string{}, rc2k: map[chan interface{}]int{},
 		rcOf: map[int]chan interface{}{}, paused: map[string]chan struct{}{}, lastEv: map[string]string{},
 		pausing: sc.Pauses, subSt: map[int]string{}, gates: map[int]chan struct{}{}, gateOpen: map[int]bool{},
 		started: map[int]bool{}, ended: map[int]bool{}, stopSt: "none", resizeSt: "none", rnd: seed | 1}
 	fn := r.handler
 	vfHookP.Store(&fn)
 	r.setRole("env")
-	r.pool = NewWorkerPool(sc.W0, nfs)
-	nfs.workerPool = r.pool
-	r.pool.Start()
+	// the pool under test is the one a real AbsfsNFS creates and starts (New), reached through
+	// ExecuteWithWorker exactly as handleConnectionLoop reaches it
+	tmo, tmoD := vfwpTimeouts()
+	nfs, err := New(vfNewFS(), ExportOptions{MaxWorkers: sc.W0, Timeouts: tmo})
+	if err != nil {
+		t.Fatalf("New: %v", err)
+	}
+	nfs.logger = log.New(io.Discard, "", 0)
+	r.nfs = nfs
+	r.pool = nfs.workerPool
+	if r.pool == nil || r.pool.maxWorkers != sc.W0 {
+		t.Fatalf("New did not create a worker pool of %d workers", sc.W0)
+	}
 	quiet := time.Duration(vfEnvInt("VF_WP_QUIET_US", 1500)) * time.Microsecond
 	for i := range sc.Steps {
 		st := &sc.Steps[i]
@@ -622,6 +647,12 @@ func vfwpRunOne(t *testing.T, sc *vfwpSched, seed uint64) []M {
 			r.callStop()
 		case "resize":
 			r.callResize(st.N)
+		case "sleep":
+			// time passes: well beyond every configured timeout
+			e := r.ev("tick", "env")
+			e["n"] = int(3 * tmoD / time.Millisecond)
+			r.emit(e)
+			time.Sleep(3*tmoD + 10*time.Millisecond)
 		default:
 			t.Fatalf("unknown schedule step %q", st.A)
 		}
